@@ -28,8 +28,11 @@ CONSTANTS AsCode      \* TRUE: transcribe the printer as the code has it (2D off
    wherever they stand -- all before the rows ("header"), all after the last row ("trailer"), or spread between
    blocks of rows with a blank line in between ("interleaved"). *)
 Layouts == {"header", "trailer", "interleaved"}
-Configs == {c \in [dim : {2, 3}, nc : 0..3, ngc : 0..2, ng : 0..3, conv : BOOLEAN, comma : BOOLEAN, wsph : BOOLEAN, layout : Layouts] :
-               (c.conv => c.dim = 3) /\ (c.ngc = 0 => c.ng = 0) /\ (c.wsph => c.conv) /\ (c.layout # "header" => ~c.comma)}
+(* sci: the rows write their lengths the way the repository's own files do, as "<km>e3" instead of plain metres; the tool
+   echoes a row's fields as they were written *)
+Configs == {c \in [dim : {2, 3}, nc : 0..3, ngc : 0..2, ng : 0..3, conv : BOOLEAN, comma : BOOLEAN, wsph : BOOLEAN, layout : Layouts, sci : BOOLEAN] :
+               /\ (c.conv => c.dim = 3) /\ (c.ngc = 0 => c.ng = 0) /\ (c.wsph => c.conv) /\ (c.layout # "header" => ~c.comma)
+               /\ (c.sci => (~c.conv /\ ~c.comma /\ c.layout = "header"))}
 
 Request(c) == <<PT, PV>> \o [i \in 1..c.nc |-> PC(i - 1)] \o [g \in 1..c.ngc |-> PG(g - 1, c.ng)] \o <<PTag>>
 
@@ -80,7 +83,9 @@ CartConvRows == << <<1000, 45, 60, "133974.6">>, <<1100, 10, 50, "157351.1">>, <
 (* the fields of data row i as they are written into the file (strings), and the query they denote *)
 RowFields(c, i) ==
   LET pr == ProbesKm[i] IN
-  IF c.dim = 2 THEN <<S(pr[1] * Km), S(H - pr[3] * Km), S(pr[3] * Km)>>
+  IF c.sci THEN (IF c.dim = 2 THEN <<S(pr[1]) \o "e3", S(H \div Km - pr[3]) \o "E+03", S(pr[3]) \o "e3">>
+                 ELSE <<S(pr[1]) \o "e3", S(pr[2]) \o "e+3", S(H \div Km - pr[3]) \o "E3", S(pr[3]) \o ".0e3">>)
+  ELSE IF c.dim = 2 THEN <<S(pr[1] * Km), S(H - pr[3] * Km), S(pr[3] * Km)>>
   ELSE IF c.conv /\ ~c.wsph THEN <<S(CartConvRows[i][1] * Km), S(CartConvRows[i][2]), S(CartConvRows[i][3]), CartConvRows[i][4]>>
   ELSE IF c.conv THEN <<S(R - pr[3] * Km), S(pr[1] \div 100) \o "." \o (IF (pr[1] % 100) < 10 THEN "0" ELSE "") \o S(pr[1] % 100), "2.5", S(pr[3] * Km)>>
   ELSE <<S(pr[1] * Km), S(pr[2] * Km), S(H - pr[3] * Km), S(pr[3] * Km)>>
